@@ -25,6 +25,7 @@ func checkC14(c *Ctx) {
 	c.Rule("C14/R7", "unit metadata survives from file to file: Files never replaces its reader wholesale and the reader creates its unit table only when it has none")
 
 	c.Rule("C14/R8", "-filter stays in force when -table/-row/-col carry a fixed value list: the projection parser ANDs the list's membership tests with the caller's filter, keeping that filter among the operands (same rule as C06/R6), so a measurement the filter rejects cannot reach a cell")
+	c.Rule("C14/R14", "every measurement's residue is recorded: in Builder.Add each append of a value to a cell is followed on every path of that step by an update of the cell's residue set")
 	c.Rule("C14/R13", "the -alpha setting reaches every comparison (same rule as C13/R8): NewSample keeps the thresholds it was handed, verbatim")
 	c.Rule("C14/R12", "every cell is summarised under its own unit's assumption (same rule as C15/R12): no goroutine started in the per-table loop captures a variable declared outside the loop and assigned inside it")
 	c.Rule("C14/R11", "which column is the baseline (same rule as C09/R1 and R4): column order for first-observation fields is the recorded rank; a rank is stored for every flattened field of every row, the empty value of a trimmed trailing field included, only when the value is new, and equals the number of values seen before")
@@ -43,6 +44,7 @@ func checkC14(c *Ctx) {
 	c14TableKeys(c, p)
 	c15LoopCaptures(c, p, "C14/R12")
 	c13Thresholds(c, p, "C14/R13")
+	c14ResidueRecorded(c, p)
 	// the baseline is the first column in the columns' order, and for first-observation fields that order is the
 	// recorded ranks: same rule as C09/R1 + R4
 	if fm := p.Method("benchproc", "Projection", "FlattenedFields"); fm != nil {
@@ -1032,4 +1034,81 @@ func c14ListWithoutUnit(v ssa.Value, seen map[ssa.Value]bool) bool {
 		return false
 	}
 	return false
+}
+
+// c14ResidueRecorded (C14/R14): the warning that merged results differ names exactly the keys they differ in, so every
+// measurement's residue is recorded: in Builder.Add each store that appends a value to a cell is followed, on every
+// path to the end of that step, by an update of that cell's residue set (no condition — such as "the set already has
+// two members" — in between).
+func c14ResidueRecorded(c *Ctx, p *Prog) {
+	const R = "C14/R14"
+	fn := p.Method(btabRel, "Builder", "Add")
+	valuesF := p.Field(btabRel, "builderCell", "values")
+	residueF := p.Field(btabRel, "builderCell", "residue")
+	if fn == nil || valuesF == nil || residueF == nil {
+		c.Undecided(R, "anchor:Builder.Add/builderCell", "", "not found")
+		return
+	}
+	n := 0
+	for _, st := range storesToField(fn, valuesF) {
+		n++
+		// forward from the store: a path to a return or back to a loop header that passes no residue update
+		isUpdate := func(in ssa.Instruction) bool {
+			mu, ok := in.(*ssa.MapUpdate)
+			if !ok {
+				return false
+			}
+			f, _ := loadOfField(mu.Map)
+			return f == residueF
+		}
+		headers := map[*ssa.BasicBlock]bool{}
+		for _, lp := range naturalLoops(fn) {
+			headers[lp.Header] = true
+		}
+		missing := ""
+		b := st.Block()
+		found := false
+		after := false
+		for _, in := range b.Instrs {
+			if in == ssa.Instruction(st) {
+				after = true
+				continue
+			}
+			if after && isUpdate(in) {
+				found = true
+			}
+		}
+		if !found {
+			seen := map[*ssa.BasicBlock]bool{}
+			work := append([]*ssa.BasicBlock{}, b.Succs...)
+			for len(work) > 0 && missing == "" {
+				x := work[len(work)-1]
+				work = work[:len(work)-1]
+				if seen[x] {
+					continue
+				}
+				seen[x] = true
+				has := false
+				for _, in := range x.Instrs {
+					if isUpdate(in) {
+						has = true
+					}
+				}
+				if has {
+					continue
+				}
+				if _, isRet := x.Instrs[len(x.Instrs)-1].(*ssa.Return); isRet || headers[x] {
+					missing = p.pos(x.Instrs[len(x.Instrs)-1].Pos())
+					if missing == "" {
+						missing = "the end of the step"
+					}
+					break
+				}
+				work = append(work, x.Succs...)
+			}
+		}
+		c.Check(missing == "", R, fmt.Sprintf("Add:residue-recorded#%d", n), p.pos(st.Pos()), "every appended value's residue key is recorded",
+			"a value can be appended to a cell without its residue key being recorded (a path reaches "+missing+" with no update of the cell's residue set): the 'benchmarks vary in …' warning then names only some of the keys the merged results differ in")
+	}
+	c.Floor(R, "value appends in Builder.Add", n, 1)
 }
